@@ -202,8 +202,15 @@ func c14ScalarMult(c *Ctx, r *Rng) {
 	}
 	base := edDecodeLax(unhx("5866666666666666666666666666666666666666666666666666666666666666"))
 	n := c.Pick(150, 4000)
-	for i := 0; i < n; i++ {
+	edge := recodeEdgeScalars([]int{4, 8, 16})
+	if c.Thorough() {
+		edge = recodeEdgeScalars([]int{1, 2, 4, 8, 16})
+	}
+	for i := 0; i < n+len(edge); i++ {
 		a, b, A := scalar(), scalar(), point()
+		if i >= n {
+			a, b = edge[i-n], edge[(i-n+1)%len(edge)]
+		}
 		pa := edDecodeLax(A)
 		ka, kb := new(big.Int).Mod(le(a), L), new(big.Int).Mod(le(b), L)
 		for _, op := range []string{"base", "var", "double", "clamp"} {
@@ -233,6 +240,37 @@ func c14ScalarMult(c *Ctx, r *Rng) {
 				map[string]any{"op": op, "a": hx(a), "A": hx(A), "b": hx(b), "impl": out, "want": hx(want)})
 		}
 	}
+}
+
+// recodeEdgeScalars: a block of 0x77 bytes (1, 2, 4, 8 or 16 of them, aligned) directly above a block that sends a carry up
+// (0x80 in its top byte, all 0x88, all 0xff), everything else zero — where a recoding that works on machine words rather than
+// digits would drop or double a carry (round 8: carry-out taken before the carry-in was added, one 64-bit word in 2^64).
+func recodeEdgeScalars(units []int) [][]byte {
+	var out [][]byte
+	for _, u := range units {
+		for k := u; k+u <= 31; k += u {
+			for pat := 0; pat < 3; pat++ {
+				b := make([]byte, 32)
+				for i := k; i < k+u; i++ {
+					b[i] = 0x77
+				}
+				for i := k - u; i < k; i++ {
+					switch pat {
+					case 0:
+						if i == k-1 {
+							b[i] = 0x80
+						}
+					case 1:
+						b[i] = 0x88
+					case 2:
+						b[i] = 0xff
+					}
+				}
+				out = append(out, b)
+			}
+		}
+	}
+	return out
 }
 
 func init() {
@@ -271,6 +309,7 @@ func c14Digits(c *Ctx, r *Rng) {
 	for d := int64(-3); d <= 3; d++ {
 		fixed = append(fixed, le32(new(big.Int).Add(L, big.NewInt(d))))
 	}
+	fixed = append(fixed, recodeEdgeScalars([]int{1, 2, 4, 8, 16})...)
 	fixed = append(fixed, bytes.Repeat([]byte{0xff}, 32), bytes.Repeat([]byte{0x88}, 32), bytes.Repeat([]byte{0x77}, 32), bytes.Repeat([]byte{0x0f}, 32),
 		bytes.Repeat([]byte{0xf0}, 32), bytes.Repeat([]byte{0x1f}, 32), bytes.Repeat([]byte{0x80}, 32), bytes.Repeat([]byte{0x7f}, 32))
 	n := c.Pick(400, 20000)
